@@ -20,7 +20,7 @@ CONSTANTS MaxN,        \* bound on leaves ever added
           MaxProbe,    \* number of queries (Prove + Verify everywhere) recorded inside a history
           Acts,        \* enabled actions: subset of {"mod","undo","prove","restore","enc"}
           MaxPerm,     \* request orders: all permutations up to this size
-          MinN,        \* wide configurations: every state with MinN <= n <= MaxN and at most
+          MinN,        \* wide configurations: every state with MinN <= n <= MaxN - MaxAdds and at most
           InitLive     \* InitLive live leaves is an initial state (InitLive < 0: start from the empty accumulator)
 
 VARIABLES n, live, stack, marks, hist
@@ -112,7 +112,7 @@ InitHist(x, lv) ==
 Init == /\ stack = <<>> /\ marks = [und |-> 0, rst |-> 0, probe |-> 0]
         /\ IF InitLive < 0
            THEN n = 0 /\ live = {} /\ hist = <<>>
-           ELSE /\ n \in MinN..MaxN
+           ELSE /\ n \in MinN..(MaxN - MaxAdds)     \* room for one full block
                 /\ live \in {S \in SUBSET (0..(n - 1)) : Cardinality(S) <= InitLive}
                 /\ hist = InitHist(n, live)
 
